@@ -115,7 +115,17 @@ func (w *world) Resolve(pt, pid, field string, args map[string]any) ref.Out {
 	}
 	var o ref.Out
 	switch pt + "." + field {
-	case "Query.me", "Query.user", "User.best", "Commands.c", "Item.owner", "User.boss", "Query.strict", "User.link", "Item.link":
+	case "Query.box":
+		c := w.pick(key, 2+w.nf())
+		switch c {
+		case 0:
+			o = ref.Out{Obj: ref.NewBox(cid)}
+		case 1:
+			o = ref.Out{K: ref.KNull}
+		default:
+			o, _ = w.fault(c, 2)
+		}
+	case "Query.me", "Query.user", "User.best", "Box.inner", "Commands.c", "Item.owner", "User.boss", "Query.strict", "User.link", "Item.link":
 		c := w.pick(key, 2+w.nf())
 		switch c {
 		case 0:
@@ -380,6 +390,21 @@ func (r *resolverRoot) Commands() CommandsResolver         { return &mutationRes
 func (r *resolverRoot) Subscription() SubscriptionResolver { return &subscriptionResolver{r.w} }
 func (r *resolverRoot) User() UserResolver                 { return &userResolver{r.w} }
 func (r *resolverRoot) Item() ItemResolver                 { return &itemResolver{r.w} }
+func (r *resolverRoot) Box() BoxResolver                   { return &boxResolver{r.w} }
+
+type boxResolver struct{ w *world }
+
+func (r *boxResolver) Inner(ctx context.Context, obj *Box) (*User, error) {
+	return r.w.user("Box", obj.ID, "inner")
+}
+func (r *queryResolver) Box(ctx context.Context) (*Box, error) {
+	r.w.called("/Query.box")
+	o := r.w.Resolve("Query", "", "box", nil)
+	if done, err := outErr(o); done {
+		return nil, err
+	}
+	return &Box{ID: o.Obj.ID}, nil
+}
 
 var errBoom = errors.New("boom")
 
